@@ -7,7 +7,7 @@ from harness.drivers import c03
 
 chk = Check("C03X")
 cfg = {'shape': [2, 3, 2], 'hasw': True, 'op': 'cp', 'rank': [2], 'bad': 'none', 'at': 0, 'lens': [],
-       'fshapes': [[2, 2], [3, 2], [2, 2]], 'wlen': 2, 'coreshape': [], 'pshapes': [], 'dl': 0, 'pden': 1}
+       'fshapes': [[2, 2], [3, 2], [2, 2]], 'wlen': 2, 'coreshape': [], 'pshapes': [], 'dl': 0, 'pden': 1, 'skip': -1, 'tr': False, 'modes': []}
 ev = c03.execute({"id": "good", "cfg": cfg, "seed": 1, "k": 0, "draw": 0})
 evs = [ev]
 def mut(name, f):
@@ -29,11 +29,14 @@ e4 = copy.deepcopy(e2); e4["id"] = "inv_converted"; e4["runs"]["core_convert"]["
 cfg3 = dict(cfg, op="p2", shape=[2, 2], rank=[2], lens=[3, 2], bad="nonorth_zero", at=1, fshapes=[[2, 2], [2, 2], [2, 2]], pshapes=[[3, 2], [2, 2]])
 e5 = c03.execute({"id": "inv_p2_good", "cfg": cfg3, "seed": 1, "k": 0, "draw": 0}); evs.append(e5)
 e6 = copy.deepcopy(e5); e6["id"] = "inv_p2_accepted"; e6["runs"]["einsum_object"]["rejected"] = False; evs.append(e6)
+cfg4 = dict(cfg, op="tucker", hasw=False, wlen=0, shape=[2, 3, 2], rank=[2, 1, 2], fshapes=[[2, 2], [3, 1], [2, 2]], coreshape=[2, 1, 2], skip=1)
+e7 = c03.execute({"id": "opt_good", "cfg": cfg4, "seed": 1, "k": 0, "draw": 0}); evs.append(e7)
+e8 = copy.deepcopy(e7); e8["id"] = "opt_vec_full"; e8["runs"]["core_tuple"]["vec"]["data"][0] += 1; evs.append(e8)
 rej = chk.validate("FactorizedTrace", evs)
 for r in sorted(rej): print(r)
 print("machinery:", chk.machinery)
 ids = {r[0] for r in rej}
-good = {"good", "inv_good", "inv_p2_good"}
+good = {"good", "inv_good", "inv_p2_good", "opt_good"}
 assert not chk.machinery and not (ids & good) and len(ids) == len(evs) - len(good), ("self-test failed", ids & good)
 print("OK: %d corrupted events rejected, %d genuine events accepted" % (len(ids), len(good)))
 shutil.rmtree(chk.work)
